@@ -3549,6 +3549,53 @@ class Canon:
                 foreign_cache[id(r)] = r2
             return foreign_cache[id(r)]
 
+        def single_dispatcher(base):
+            """@singledispatch def f(x, ..): DEFAULT  +  @f.register(T) def _(x, ..): IMPL   as one function:
+            `if isinstance(x, T): IMPL else: DEFAULT` (at most two registered classes, unrelated or bool / int in that order)"""
+            if [u(d_).split(".")[-1] for d_ in base.decorator_list] != ["singledispatch"] or not base.args.args or base.args.vararg or base.args.kwarg:
+                return None
+            key_ = ("sd", id(base))
+            if key_ in foreign_cache:
+                return foreign_cache[key_]
+            regs = []
+            for n_ in module.tree.body:
+                if isinstance(n_, ast.FunctionDef) and len(n_.decorator_list) == 1:
+                    d_ = n_.decorator_list[0]
+                    if isinstance(d_, ast.Call) and u(d_.func) == f"{base.name}.register" and len(d_.args) == 1 and not d_.keywords:
+                        regs.append((d_.args[0], n_))
+                    elif u(d_) == f"{base.name}.register" and n_.args.args and n_.args.args[0].annotation is not None:
+                        regs.append((n_.args.args[0].annotation, n_))
+            if not 1 <= len(regs) <= 2 or any(len(r_.args.args) != len(base.args.args) or r_.args.vararg or r_.args.kwarg for _, r_ in regs):
+                foreign_cache[key_] = None
+                return None
+            names_ = [u(t_) for t_, _ in regs]
+            if len(regs) == 2 and not (set(names_) <= {"int", "bool", "str", "bytes", "float", "list", "tuple", "dict", "set"}):
+                foreign_cache[key_] = None
+                return None
+            regs.sort(key=lambda tr: 0 if u(tr[0]) == "bool" else 1)        # bool is an int: asked first
+            params = [a_.arg for a_ in base.args.args]
+            tail = [copy.deepcopy(x) for x in real_body(base)] or [ast.Return(value=ast.Constant(None))]
+            if not _terminates(tail):
+                tail = tail + [ast.Return(value=ast.Constant(None))]
+            for t_, r_ in reversed(regs):
+                ren = {a_.arg: p_ for a_, p_ in zip(r_.args.args, params) if a_.arg != p_}
+                body_ = [copy.deepcopy(x) for x in real_body(r_)] or [ast.Pass()]
+                if ren:
+                    if norm._assigned_names(body_) & set(ren.values()):
+                        foreign_cache[key_] = None
+                        return None
+                    body_ = [norm._Rename(ren).visit(x) for x in body_]
+                if not _terminates(body_):
+                    body_ = body_ + [ast.Return(value=ast.Constant(None))]
+                test = ast.Call(func=ast.Name(id="isinstance", ctx=ast.Load()), args=[ast.Name(id=params[0], ctx=ast.Load()), copy.deepcopy(t_)], keywords=[])
+                tail = [ast.If(test=test, body=body_, orelse=tail)]
+            new_ = ast.FunctionDef(name=base.name, args=copy.deepcopy(base.args), body=tail, decorator_list=[], returns=None, type_comment=None, type_params=[])
+            ast.copy_location(new_, base)
+            ast.fix_missing_locations(new_)
+            self._keepalive.append(new_)
+            foreign_cache[key_] = new_
+            return new_
+
         def explicit_super(m_, k_):
             """m_ (defined in class k_) with its zero-argument super() calls written out as super(k_, <its receiver>): they ascend
             from ITS class along the receiver's MRO, wherever the body ends up after inlining"""
@@ -3638,6 +3685,12 @@ class Canon:
                     if [u(d) for d in m.decorator_list] == ["classmethod"] and f.value.id == "cls" and in_classmethod:
                         return explicit_super(m, kd), True, prep      # a hook classmethod called on the class the classmethod runs for
                     return None
+                if m.decorator_list:
+                    # wrapped by something else: what the wrapper makes of it (a private decorator of the program), or not seen through
+                    m_u = self.undecorated(m, kd.module, kd)
+                    if m_u is m:
+                        return None
+                    m = m_u
                 return explicit_super(m, kd), True, prep
             if isinstance(f, ast.Attribute) and norm.is_reference(f.value) and f.attr.startswith("_") and not f.attr.startswith("__") and f.attr not in keep:
                 # r._m(..) with _m a private method no table knows, defined by a few classes of the program: whatever r is, the call
@@ -3664,7 +3717,7 @@ class Canon:
                     r = module.resolve(f)
                 except Exception:
                     r = None
-                if isinstance(r, ast.FunctionDef):
+                if isinstance(r, ast.FunctionDef) and not r.decorator_list:
                     src_m = next((m_ for m_ in self.prog.modules.values() if r in m_.functions.values()), None)
                     if src_m is not None:
                         return foreign(r, src_m.name), False, prep
@@ -3673,21 +3726,28 @@ class Canon:
                 if name in keep:
                     return None
                 if name in nested and (name in inline or f"fn:{name}" not in known):
-                    return nested[name], False, prep
+                    return (nested[name], False, prep) if not nested[name].decorator_list else None
                 if name in module.functions and (name in inline or (name.startswith("_") and f"fn:{name}" not in known)):
-                    return module.functions[name], False, prep
+                    target = module.functions[name]
+                    if target.decorator_list:
+                        # a decorated function is what its decorator makes of it: functools.singledispatch is a chain of isinstance
+                        # tests on the first argument; anything else is not seen through here
+                        target = single_dispatcher(target)
+                        if target is None:
+                            return None
+                    return target, False, prep
                 if name in module.imports and (name in inline or (name.startswith("_") and not name.startswith("__") and f"fn:{name}" not in known)):
                     try:
                         r = module.resolve(f)
                     except Exception:
                         r = None
-                    if isinstance(r, ast.FunctionDef):
+                    if isinstance(r, ast.FunctionDef) and not r.decorator_list:
                         return foreign(r, module.imports[name].rpartition(".")[0]), False, prep
                 if name in local_imports and (name in inline or (name.startswith("_") and not name.startswith("__") and f"fn:{local_imports[name][1]}" not in known)):
                     # imported inside the function (to break an import cycle): the function of that module, spelled as this module spells things
                     src = self.prog.modules.get(local_imports[name][0])
                     r = src.functions.get(local_imports[name][1]) if src is not None else None
-                    if isinstance(r, ast.FunctionDef):
+                    if isinstance(r, ast.FunctionDef) and not r.decorator_list:
                         return foreign(r, src.name), False, prep
             return None
         return lookup
